@@ -55,6 +55,7 @@ FAMILIES = {
     "atoms_cellb": {"base": "2018_JCP_149_064113/coulomb_atoms/cell_bounded.ini", "n": (2, 16), "cells": True,
                     "cost": 3},
     "atoms_cellv": {"base": "2018_JCP_149_064113/coulomb_atoms/cell_veto.ini", "n": (2, 16), "cells": True,
+                    "veto": True,
                     "cost": 3},
     "dip_atom": {"base": "2018_JCP_149_064113/dipoles/atom_factors.ini", "n": (2, 5), "cost": 1},
     "dip_in": {"base": "2018_JCP_149_064113/dipoles/dipole_factors_inside_first.ini", "n": (2, 5), "cost": 1},
@@ -64,6 +65,7 @@ FAMILIES = {
     "dip_cellb": {"base": "2018_JCP_149_064113/dipoles/cell_bounded.ini", "n": (2, 8), "cells": True, "cost": 4,
                   "cheap": {"DipoleMonteCarloEstimator": {"number_trials": "40"}}},
     "dip_cellv": {"base": "2018_JCP_149_064113/dipoles/cell_veto.ini", "n": (2, 8), "cells": True, "cost": 4,
+                  "veto": True,
                   "cheap": {"DipoleMonteCarloEstimator": {"number_trials": "40"}}},
     "water_vv": {"base": "2018_JCP_149_064113/water/coulomb_cell_veto_lj_cell_veto.ini", "n": (2, 5), "cost": 4},
     "water_vi": {"base": "2018_JCP_149_064113/water/coulomb_cell_veto_lj_inverted.ini", "n": (2, 5), "cost": 4,
@@ -129,7 +131,8 @@ def generate(rng, family, package_dir, events=2000, vary=True, shipped_n=False):
             dim = int(sections.get("HypercubicSetting", {}).get("dimension", 3))
             if rng.random() < 0.7:
                 layers = 1
-                cells = [rng.randint(3, 6) for _ in range(dim)]
+                # a cell-veto system needs at least one cell outside the nearby ones in every direction
+                cells = [rng.randint(4 if spec.get("veto") else 3, 6) for _ in range(dim)]
                 set_out.setdefault("CuboidPeriodicCells", {})["cells_per_side"] = ", ".join(map(str, cells))
             if spec.get("occupants") and "SingleActiveCellOccupancy" in sections and rng.random() < 0.6:
                 set_out.setdefault("SingleActiveCellOccupancy", {})["maximum_number_occupants"] = str(
